@@ -41,6 +41,7 @@ ObsApply(o, e) ==
     [] e.e = "Dispatch"    -> LET o1 == ObsDispatch(o, e.ent, e.now)
                               IN IF e.res = "temp" THEN ObsSched(o1, e.next, e.ndue) ELSE ObsTerminal(o1, e.m)
     [] e.e = "Panic"       -> ObsPanic(o)
+    [] e.e = "Restart"     -> ObsRestart(o)
     [] e.e = "End"         -> ObsEnd(ObsSpool(o, "end", ToSet(e.pending), ToSet(e.broken)), ToSet(e.hung), e.now)
     [] OTHER               -> o
 
@@ -48,7 +49,7 @@ Publish(d, o) ==
   TLCSet(1, TLCGet(1) \cup {[t |-> tno, k |-> k, drift |-> d, driftAt |-> 0, viol |-> o.viol, dev |-> Dev(o)]})
 Reached(n) == TLCSet(2, [TLCGet(2) EXCEPT ![k] = IF @ < n THEN n ELSE @])
 
-DummyCfg == [due |-> << >>, close |-> FALSE, retry |-> {}, par |-> 1]
+DummyCfg == [due |-> << >>, close |-> FALSE, retry |-> {}, par |-> 1, hdr |-> {}]
 
 TInit ==
   /\ InitWith(DummyCfg)
@@ -57,10 +58,11 @@ TInit ==
 
 TReset ==
   /\ IsEv("Cfg")
-  /\ LET c == [due |-> Ev.due, close |-> Ev.close, retry |-> ToSet(Ev.retry), par |-> Ev.par] IN
+  /\ LET c == [due |-> Ev.due, close |-> Ev.close, retry |-> ToSet(Ev.retry), par |-> Ev.par,
+               hdr |-> ToSet(Ev.hdr)] IN
        /\ cfg' = c /\ now' = 0
        /\ stopped' = FALSE /\ slots' = {} /\ updClosed' = FALSE /\ doneClosed' = FALSE
-       /\ apc' = [p \in Adders |-> IF p \in DOMAIN c.due THEN "a0" ELSE "idle"]
+       /\ apc' = [p \in Adders |-> IF p \in DOMAIN c.due THEN "ab" ELSE "idle"]
        /\ cpc' = IF c.close THEN "c0" ELSE "none"
   /\ tpc' = "t0" /\ tnow' = 0 /\ closest' = None /\ timerAt' = 0
   /\ wpc' = [e \in Entries |-> "none"] /\ wdue' = [e \in Entries |-> 0]
@@ -127,6 +129,25 @@ C_End ==
   /\ Reached(l + 1)
   /\ Publish(FALSE, obs')
 
+\* Restart on the same spool directory: the design spec describes one scheduler instance, so
+\* conformance is decided on the first instance; the second one is folded by the monitor only.
+C_Restart ==
+  /\ ~drift /\ IsEv("Restart") /\ ~ended
+  /\ ~ProcEnabled /\ ~ContPending /\ cpc = "done"
+  /\ ended' = TRUE
+  /\ obs' = ObsApply(obs, Ev)
+  /\ UNCHANGED <<cfg, now, wheelV, apc, cpc, tickV, workV, queueV, schedV>>
+  /\ l' = l + 1 /\ UNCHANGED <<drift, tno, k>>
+  /\ Reached(l + 1)
+
+C_Post ==
+  /\ ~drift /\ ended /\ l <= Len(Trace) /\ Ev.e # "Cfg"
+  /\ obs' = ObsApply(obs, Ev)
+  /\ UNCHANGED <<cfg, now, wheelV, apc, cpc, tickV, workV, queueV, ended, schedV>>
+  /\ l' = l + 1 /\ UNCHANGED <<drift, tno, k>>
+  /\ Reached(l + 1)
+  /\ IF Ev.e = "End" THEN Publish(FALSE, obs') ELSE TRUE
+
 M_Step ==
   /\ drift /\ l <= Len(Trace) /\ Ev.e # "Cfg"
   /\ obs' = ObsApply(obs, Ev)
@@ -134,7 +155,7 @@ M_Step ==
   /\ UNCHANGED <<cfg, now, wheelV, apc, cpc, tickV, workV, queueV, ended, schedV, drift, tno, k>>
   /\ IF Ev.e = "End" THEN Publish(TRUE, obs') ELSE TRUE
 
-TNext == TReset \/ C_StepSilent \/ C_StepVis \/ C_Cont \/ C_Clock \/ C_End \/ M_Step
+TNext == TReset \/ C_Restart \/ C_Post \/ C_StepSilent \/ C_StepVis \/ C_Cont \/ C_Clock \/ C_End \/ M_Step
 TSpec == TInit /\ [][TNext]_tvars
 
 SeqAt(n) == IF n >= 1 /\ n <= Len(Trace) THEN Trace[n].seq ELSE 0
